@@ -24,3 +24,14 @@ func vpIndex(n int) int {
 	vp.Assume(i >= 0 && i < n)
 	return i
 }
+
+// what writeStatesPalette / writeBiomesPalette take from a container
+func vpSavedForm(c *PaletteContainer[BlocksState]) ([]BlocksState, []uint64) {
+	pal, data := c.savedForm()
+	return pal, append([]uint64{}, data...)
+}
+
+func vpSavedFormBiome(c *PaletteContainer[BiomesState]) ([]BiomesState, []uint64) {
+	pal, data := c.savedForm()
+	return pal, append([]uint64{}, data...)
+}
